@@ -1,5 +1,5 @@
 (* extraction of the C13 model (see ExtractC14.v for the conventions) *)
-From AV Require Import Base.Prelude Model.Normalize.
+From AV Require Import Base.Prelude Model.Normalize Model.FvarTable.
 Require Import ExtrOcamlBasic.
 Extraction Language OCaml.
 Definition z_add := Z.add.
@@ -8,4 +8,5 @@ Definition z_opp := Z.opp.
 Definition z_div_eucl := Z.div_eucl.
 Definition z_ltb := Z.ltb.
 Definition z_eqb := Z.eqb.
-Extraction "../ocaml/c13/model.ml" z_add z_mul z_opp z_div_eucl z_ltb z_eqb fvar_normalize default_normalize.
+Extraction "../ocaml/c13/model.ml" z_add z_mul z_opp z_div_eucl z_ltb z_eqb fvar_normalize default_normalize
+  avar_normalize case_normalize case_instance case_owned_tuple case_named inst_coords.
